@@ -240,11 +240,12 @@ def canon(st):
 
 
 class Spec:
-    def __init__(self, clsname, max_size, on_miss, nkeys=None):
+    def __init__(self, clsname, max_size, on_miss, nkeys=None, values=VALUES):
         self.clsname, self.max_size, self.on_miss = clsname, max_size, on_miss
+        self.values = tuple(values)
         self.keys = ALLKEYS[:nkeys or (max_size + 1)]
         self.config = {'class': clsname, 'max_size': max_size, 'on_miss': bool(on_miss), 'keys': list(self.keys),
-                       'values': list(VALUES)}
+                       'values': list(self.values)}
         self.menu = self._menu()
 
     def cls(self):
@@ -254,14 +255,14 @@ class Spec:
     def _menu(self):
         K, m = self.keys, []
         for k in K:
-            for v in VALUES:
+            for v in self.values:
                 m.append(('set', k, v))
         for k in K:
             m += [('getitem', k), ('get', k), ('getd', k, 'D'), ('del', k), ('pop', k), ('popd', k, 'D'),
                   ('setdefault', k)]
             # caller defaults that are the very object a key may hold (identity shortcuts such as `ret is default`)
             m += [('popd', k, 0), ('getd', k, 1)]
-            for v in VALUES:
+            for v in self.values:
                 m.append(('setdefaultd', k, v))
         m.append(('popitem',))
         first, last = K[0], K[-1]
@@ -526,7 +527,9 @@ def configs(tier):
 def run(ctx):
     parts = []
     for cls, ms, om in configs(ctx.tier):
-        spec = Spec(cls, ms, om)
+        # quick: the max_size=3 searches use one value (values only multiply the state space: no code path depends on
+        # them except the identity shortcuts, for which 0 is kept); thorough: both values everywhere
+        spec = Spec(cls, ms, om, values=(0,) if ctx.quick() and ms >= 3 else VALUES)
         res = histories.explore(spec, ctx)
         parts.append((spec.config, res))
         ctx.note('%s max_size=%d on_miss=%s: states=%d transitions=%d depth=%d fixpoint=%s'
@@ -542,7 +545,7 @@ def run(ctx):
 
 def replay(ctx, data):
     cfg = data['case']['config']
-    spec = Spec(cfg['class'], cfg['max_size'], cfg['on_miss'], nkeys=len(cfg['keys']))
+    spec = Spec(cfg['class'], cfg['max_size'], cfg['on_miss'], nkeys=len(cfg['keys']), values=cfg.get('values', VALUES))
     hist = [tuple(tuple(tuple(y) if isinstance(y, list) else y for y in x) if isinstance(x, list) else x
                   for x in op) for op in data['case']['history']]
     msgs = []
